@@ -229,6 +229,27 @@ class Run:
             self.violations.append({"obligations": rep["obligations"], "replay": path, "reproduced": True})
         return res
 
+    def storage_mode(self, mode, runs=None, what="", backends=None, **kw):
+        """Other run-time harness modes of pyvc/storage_rt.py (value fidelity/ownership, crash visibility, heartbeats)."""
+        runs = runs or (6 if self.tier == "quick" else 120)
+        spec = {"mode": mode, "seed": self.seed, "runs": runs}
+        if backends:
+            spec["backends"] = backends
+        spec.update(kw)
+        res = rt_call(None, spec, script="storage_rt.py", timeout=3000)
+        if res.get("status") != "ok":
+            self.notes.append(f"NOTE storage harness ({mode}) error: {str(res.get('why'))[-300:]}")
+            self.undecided.append({"obligations": [f"{self.pid}/storage-harness/{mode}"], "why": "run-time harness failed to run"})
+            return res
+        self.bounded.append({"what": what or f"storage harness mode {mode} on the real back ends", "bound": f"{runs} seeded runs per back end",
+                             "cases": res.get("runs", 0)})
+        for v in res.get("violations", []):
+            rep = {"property": self.pid, "kind": "storage-mode", "mode": mode, "backend": v["backend"], "seed": v["seed"], "spec": spec,
+                   "problems": v["problems"], "obligations": [f"{self.pid}/{v['backend']}/{mode}"], "reproduced": True}
+            path = self.write_replay(rep)
+            self.violations.append({"obligations": rep["obligations"], "replay": path, "reproduced": True})
+        return res
+
     def ledger_names(self):
         led = load_json(LEDGER, {})
         return set(led.get(self.pid, {}).keys())
@@ -470,6 +491,12 @@ def replay(pid, path):
         rep = json.load(f)
     if rep.get("kind") == "storage-history":
         res = rt_call(None, {"mode": "replay", "backend": rep["backend"], "ops": rep["ops"]}, script="storage_rt.py")
+        print(json.dumps(res, indent=1, default=str)[:4000])
+        return 1 if res.get("violations") else 0
+    if rep.get("kind") == "storage-mode":
+        spec = dict(rep["spec"])
+        spec.update({"backends": [rep["backend"]], "runs": 1, "seed_exact": rep["seed"]})
+        res = rt_call(None, spec, script="storage_rt.py")
         print(json.dumps(res, indent=1, default=str)[:4000])
         return 1 if res.get("violations") else 0
     if "inputs" not in rep:
